@@ -93,12 +93,14 @@ def plan(tier, seed):
     specs = [{"mode": "synthetic", "n": n, "rseed": seed * 1000 + i} for i in range(14)]
     specs += [{"mode": "shipped", "which": w, "n": 60 if tier == "quick" else 3000, "rseed": seed * 1000 + 100 + k}
               for k, w in enumerate(["mex", "nimitz"])]
+    specs.append({"mode": "layout", "n": 25 if tier == "quick" else 300, "rseed": seed * 1000 + 200})
     return specs
 
 
 def minimums(tier):
     return {"ilog.calls_checked": 2000, "ilog.entries_checked": 20000, "get_entry.checked": 20000, "shipped.entries_checked": 2000,
-            "workload.reported_error_ptes": 1500, "workload.partial_trailing": 300}
+            "workload.reported_error_ptes": 1500, "workload.partial_trailing": 300, "layout.compared": 40,
+            "layout.decoded_in_plain_tree": 40}
 
 
 def run(spec, ctx):
@@ -111,7 +113,7 @@ def run(spec, ctx):
         for i in range(spec["n"]):
             table = iogen.gen_table(rng)
             path = os.path.join(root, "pte_%d.h" % (i % 3))      # paths are reused: the file is rewritten with another table
-            im.write_pte_table(path, table, rng, style=rng.randrange(4))
+            im.write_pte_table(path, table, rng, style=rng.randrange(4) | (16 if rng.random() < 0.3 else 0))
             TABLES[os.path.abspath(path)] = iogen.model_table(table)
             for _ in range(12):
                 data = iogen.gen_ilog(rng, table)
@@ -124,6 +126,17 @@ def run(spec, ctx):
                 except Exception as e:
                     ctx.violation("C14/decoder-raised/" + type(e).__name__, "parse_ilog_data raised %r" % (e,), data=data[:400],
                                   table=[list(t) for t in table][:50])
+        return
+    if spec["mode"] == "layout":
+        # the shipped tables are found next to the modules: same result however the package is laid out on disk
+        from vf import layout
+        from io_drawer.drawer_type import DRAWER_TYPES
+        cases = []
+        for dt in DRAWER_TYPES:
+            table, _ = im.parse_shipped_pte_table(dt.get_header_file_path())
+            for _ in range(spec["n"]):
+                cases.append((73, dt.user_data_version, iogen.gen_ilog(rng, table, rng.randrange(1, 40))))
+        layout.compare(ctx, "C14", cases, "ILOG data")
         return
     from io_drawer.drawer_type import MEX_DRAWER_TYPE, NIMITZ_DRAWER_TYPE
     dt = MEX_DRAWER_TYPE if spec["which"] == "mex" else NIMITZ_DRAWER_TYPE
